@@ -323,12 +323,29 @@ fn rec_error<V: IntoValue>(ety: &str, self_: Option<Vec<u32>>, error: ErrorKind<
 /// Shared body of every `merge`.  `other` is either the id list of a recording error (hand-over) or,
 /// for a user function's error, the single id that this merge turns into a report.
 fn rec_merge(ety: &str, src: &str, self_: Option<Vec<u32>>, other: Vec<u32>, location: ValuePointerRef) -> (bool, Vec<u32>) {
+    rec_merge_msgs(ety, src, self_, other, location, String::new(), String::new())
+}
+
+fn rec_merge_msgs(ety: &str, src: &str, self_: Option<Vec<u32>>, other: Vec<u32>, location: ValuePointerRef, mj: String, mq: String) -> (bool, Vec<u32>) {
     let mut out = self_.clone().unwrap_or_default();
     out.extend(other.iter().copied());
     let a = answer();
     push_event(json!({"e": "mrg", "ety": ety, "src": src, "loc": loc_j(location), "self": opt_ids(&self_), "other": other,
-                      "ans": if a { "c" } else { "b" }, "out": out}));
+                      "ans": if a { "c" } else { "b" }, "out": out, "mj": mj, "mq": mq}));
     (a, out)
+}
+
+/// how the built-in error types render a user function's error (their blanket MergeWithError<E: std::error::Error>)
+fn fn_msgs(other: &FnErr, l: ValuePointerRef) -> (String, String) {
+    use deserr::errors::{JsonError, QueryParamError};
+    let want = CTX.with(|c| c.borrow().want_msgs) && !is_deep();
+    if !want {
+        return (String::new(), String::new());
+    }
+    (
+        take(<JsonError as MergeWithError<FnErr>>::merge(None, other.clone(), l)).to_string(),
+        take(<QueryParamError as MergeWithError<FnErr>>::merge(None, other.clone(), l)).to_string(),
+    )
 }
 
 /// The recording, scripted error type: its value is the list of report ids it was handed, in order.
@@ -378,7 +395,8 @@ impl MergeWithError<RecErr2> for RecErr {
 }
 impl MergeWithError<FnErr> for RecErr {
     fn merge(self_: Option<Self>, other: FnErr, l: ValuePointerRef) -> ControlFlow<Self, Self> {
-        let (a, out) = rec_merge("E", &format!("fn:{}", other.f), self_.map(|s| s.ids), vec![other.id], l);
+        let (mj, mq) = fn_msgs(&other, l);
+        let (a, out) = rec_merge_msgs("E", &format!("fn:{}", other.f), self_.map(|s| s.ids), vec![other.id], l, mj, mq);
         cf(a, RecErr { ids: out })
     }
 }
@@ -396,7 +414,8 @@ impl MergeWithError<RecErr2> for RecErr2 {
 }
 impl MergeWithError<FnErr> for RecErr2 {
     fn merge(self_: Option<Self>, other: FnErr, l: ValuePointerRef) -> ControlFlow<Self, Self> {
-        let (a, out) = rec_merge("F", &format!("fn:{}", other.f), self_.map(|s| s.ids), vec![other.id], l);
+        let (mj, mq) = fn_msgs(&other, l);
+        let (a, out) = rec_merge_msgs("F", &format!("fn:{}", other.f), self_.map(|s| s.ids), vec![other.id], l, mj, mq);
         cf(a, RecErr2 { ids: out })
     }
 }
